@@ -366,6 +366,7 @@ def rule_slot_exhaustion(ctx):
     flag = flag[0]
     sets_true = []
     sets_false = []
+    raised_by_value = []
     for u in field_uses(prog, opath, flag):
         if u.mut and u.op == "store":
             n = u.site.node
@@ -375,8 +376,34 @@ def rule_slot_exhaustion(ctx):
             elif k is not None and k.get("bool") is False:
                 sets_false.append(u)
             else:
-                r.violation(opath + "." + flag, "non-constant-store", "the re-encode flag is assigned a non-constant value", u.site.loc())
-    r.floor(len(sets_true), 1, "sites raising the re-encode flag")
+                # `flag = flag || (next >= n)`: the stored bool is the flag itself, `true`, or a comparison of two fields
+                bq = u.site.body
+                os_ = origins(bq, n["rv"]["ops"][0], transparent=()) if n["rv"]["k"] == "use" else []
+                cmpf = False
+                other = False
+                for o in os_:
+                    if o.kind == "binop" and o.data["op"] in ("Ge", "Gt", "Le", "Lt", "Eq"):
+                        fa = self_fields_read(bq, o.data["ops"][0], through_calls=False)
+                        fb = self_fields_read(bq, o.data["ops"][1], through_calls=False)
+                        if fa and fb and fa != fb:
+                            cmpf = True
+                        else:
+                            other = True
+                    elif o.kind == "const" and o.data.get("bool") is True:
+                        continue
+                    elif o.kind == "param" and o.fields and str(o.fields[-1]) == flag:
+                        continue
+                    else:
+                        other = True
+                if cmpf and not other:
+                    raised_by_value.append(u)
+                elif os_:
+                    r.ok(opath + "." + flag, "NOT decided: the re-encode flag is assigned a computed value the rule does not follow", u.site.loc())
+                else:
+                    r.violation(opath + "." + flag, "non-constant-store", "the re-encode flag is assigned a non-constant value", u.site.loc())
+    for u in raised_by_value:
+        r.ok(u.fn.id + "|raise", "flag raised by the value of a comparison of the next slot with the slot count (`flag = flag || cmp`)", u.site.loc())
+    r.floor(len(sets_true) + len(raised_by_value), 1, "sites raising the re-encode flag")
     for u in sets_true:
         b = u.site.body
         ok = False
@@ -407,7 +434,9 @@ def rule_slot_exhaustion(ctx):
         if not tests_flag:
             continue
         entries.append((fnb, region))
-    r.floor(len(entries), 2, "encode functions clearing the flag")
+    # two encode functions of their own, or one shared entry that several owner methods call
+    shared = sum(len([c for c in prog.callers_of(fnb) if prog.enclosing_fn(c.body).impl and prog.enclosing_fn(c.body).impl.get("self_adt") == opath]) for fnb, _ in entries)
+    r.floor(max(len(entries), shared), 2, "encode functions clearing the flag")
     for fnb, region in entries:
         # whole-field assignments somewhere in the region
         missing = []
@@ -715,6 +744,20 @@ def rule_monotone_allocation(ctx):
                     okop = u.op in ("alloc::vec::Vec::push", "store") or u.op.startswith("index_mut>store-through") or u.op in ("index_mut>core::option::Option::take",)
                     if u.op == "store":
                         okop = False
+                    if re.search(r"get_mut$", u.op):
+                        # a checked access to one slot: fine when the slot is only `take()`n / overwritten in place (no reordering of the table)
+                        bq = u.site.body
+                        dst = u.site.node.get("dst", {}).get("l") if u.site.si is None else None
+                        uses_ = []
+                        if dst is not None:
+                            for s2 in bq.calls():
+                                dd, _, _ = data_deps(bq, s2.node["args"][0], through_calls=False) if s2.node.get("args") and op_place(s2.node["args"][0]) is not None else (set(), None, None)
+                                if dst in dd and (s2.bb, s2.si) != (u.site.bb, u.site.si):
+                                    uses_.append(callee_decl(callee_of(s2)))
+                        okop = bool(uses_) and all(x in ("core::option::Option::take", "core::option::Option::replace", "core::option::Option::insert", "core::mem::take", "core::mem::replace") for x in uses_)
+                        if not okop and not uses_:
+                            r.ok("%s.%s|%s" % (path, name, u.fn.path), "NOT decided: what is done with the slot handed out by %s is not followed" % u.op, u.site.loc())
+                            continue
                     if u.op in ("alloc::vec::Vec::resize_with", "alloc::vec::Vec::resize"):
                         # growth only: under the test `len <= n` (padding the table up to the solver's variable count)
                         bb_ = u.site.body
